@@ -56,6 +56,7 @@ type batch2 struct {
 	batches  []nodeBatch
 	index    []int
 	err      error
+	routes   map[uint16]*redisNode // slot -> node chosen for it in this batch
 }
 
 func (tb *batch2) joinError(err error) error {
@@ -82,7 +83,7 @@ func (batch *batch2) Put(cmd string, args ...interface{}) error {
 		return nil
 	}
 
-	node, err := batch.cluster.ChooseNodeWithCmd(cmd, args...)
+	node, keys, err := batch.cluster.chooseNodeWithCmdAndKeys(cmd, false, args...)
 	if err != nil {
 		err = fmt.Errorf("run ChooseNodeWithCmd error : %w", err)
 		return batch.joinError(err)
@@ -91,6 +92,10 @@ func (batch *batch2) Put(cmd string, args ...interface{}) error {
 		// node is nil means no need to put
 		return nil
 	}
+	if batch.routes == nil {
+		batch.routes = make(map[uint16]*redisNode)
+	}
+	node = pinBatchRoute(batch.routes, node, keys)
 
 	var i int
 	for i = 0; i < len(batch.batches); i++ {
